@@ -108,7 +108,7 @@ def main(argv):
     if report:
         for name, r in report.items():
             v.obligation('table %s: fmt_ok' % name, r['fmt_ok'])
-            v.obligation('table %s: all fields checked, or refuted by a boundary instruction' % name, r['status'])
+            v.obligation('table %s: every header field is checked (all_checked)' % name, r['status'])
             for fld in r['unchecked']:
                 cls = 'c03 format=%s field=%s' % (name, fld)
                 v.violation('format %s stores header field %s without a range check (generated table, Model.Container.pair_checked)' % (name, fld),
